@@ -6,6 +6,7 @@
 #   selftest.sh suite             the repository's own test suite on the instrumented copy
 #   selftest.sh seeded [id...]    every change in /verif/seeded must make the check named in its meta.json fail
 #   selftest.sh mutants [ID...]   every patch in /verif/mutants must make its property's quick check fail
+#   selftest.sh channels          simrt's channel fallback: benign channel-using change quiet, breaking one caught, replay exact
 set -u
 cd /verif
 export GOFLAGS=-mod=mod GOPROXY=off GOSUMDB=off GOTOOLCHAIN=local
@@ -80,5 +81,30 @@ mutants)
     git -C /repo worktree remove --force $W 2>/dev/null; rm -rf $W
   done
   exit $rc ;;
-*) echo "usage: selftest.sh determinism|suite|fidelity|mutants|seeded" >&2; exit 2 ;;
+channels)
+  # the channel fallback of simrt: a benign change that uses channels, select, range over a
+  # channel and sync.Cond must leave C02 and C07 quiet; one that acknowledges a write before it
+  # landed must be caught, and its replay must hash identically three times
+  rc=0
+  for kind in benign breaking; do
+    W=$(mktemp -d /dev/shm/verif-chan.XXXXXX)
+    git -C /repo worktree add -q --detach $W HEAD 2>/dev/null || { echo "worktree failed"; exit 2; }
+    if ! git -C $W apply $PWD/selftest/channels-$kind.patch 2>/dev/null; then echo "SKIP (does not apply): channels-$kind"; git -C /repo worktree remove --force $W; continue; fi
+    for p in C02 C07; do
+      out=$(VERIF_REPO=$W VERIF_SECONDS=${MUTANT_SECONDS:-20} ./check.sh $p quick 2>&1); code=$?
+      ops=$(echo "$out" | grep -o 'chanops=[0-9]*' | head -1)
+      if [ $kind = benign ]; then
+        if [ $code -eq 0 ]; then echo "quiet    channels-benign under $p ($ops)"; else echo "ALARM    channels-benign under $p (exit $code)"; echo "$out" | grep '^violation' | head -3; rc=1; fi
+      elif [ $p = C02 ]; then
+        if [ $code -eq 1 ]; then
+          rp=$(echo "$out" | grep -m1 '^VIOLATION' | sed 's/.*replay=//')
+          h=$(for i in 1 2 3; do VERIF_REPO=$W ./check.sh C02 --replay $rp 2>&1 | grep loghash; done | sort -u | wc -l)
+          echo "caught   channels-breaking by C02; replay hashes distinct=$h"; [ "$h" = 1 ] || rc=1
+        else echo "MISSED   channels-breaking by C02 (exit $code)"; rc=1; fi
+      fi
+    done
+    git -C /repo worktree remove --force $W 2>/dev/null; rm -rf $W
+  done
+  exit $rc ;;
+*) echo "usage: selftest.sh determinism|suite|fidelity|mutants|seeded|channels" >&2; exit 2 ;;
 esac
